@@ -28,7 +28,7 @@ ASSUMPTIONS = [
 COMPONENTS = {"real": ["Exchange", "LimitOrderBook", "EventNBBO", "EventContractDiscontinued", "IEvent.notify dispatch", "TradingEnv.notify (one third of the runs)", "contracts", "FutureChain"],
               "harness": ["dict book model", "calendar-free lead model"], "stub": []}
 PROBE_FLOORS = {"revival_attempt": 200, "chain_key_after_roll": 100, "string_key_query": 200, "quote_other_key_between": 500,
-                "query_dead_book": 200, "chain_quote_dispatched_by_environment": 700, "events_delivered_by_an_episode": 350, "replay_with_events_inside_latency_windows": 200}
+                "query_dead_book": 200, "chain_quote_dispatched_by_environment": 700, "events_delivered_by_an_episode": 350, "replay_with_events_inside_latency_windows": 200, "refused_step_then_retry": 120}
 
 
 def generate(rng, i):
@@ -95,7 +95,9 @@ def generate(rng, i):
             keys = [rng.randrange(n) for _ in range(rng.randint(1, 4))]
             script.append({"op": "query", "keys": keys, "signs": [rng.choice([1, -1, 0, 2.5, -0.5]) for _ in keys],
                            "by_string": rng.random() < 0.3})
-    return {"kind": "c14", "contracts": specs, "script": script, "via_notify": via_notify, "mode": mode, "clock0": "2019-01-02T00:00:00"}
+    fail_at = rng.randint(1, 6) if (mode == "episode" and rng.random() < 0.4) else None
+    return {"kind": "c14", "contracts": specs, "script": script, "via_notify": via_notify, "mode": mode, "clock0": "2019-01-02T00:00:00",
+            "fail_at": fail_at}
 
 
 class Model(object):
@@ -233,6 +235,22 @@ def _execute_episode(sc, clock0):
             if violations:
                 break
             cur[0] = step
+            if sc.get("fail_at") == step - k0:
+                # error path: a step with an action outside the space is refused after the quotes of the latency window
+                # were delivered; the retry must not deliver them a second time
+                try:
+                    env.step(np.array([float("nan")]))
+                    violate(step, "unexpected_exception", "an action outside the space was accepted", exc="none", site="step")
+                    break
+                except ValueError:
+                    pass
+                faults["refused_step_then_retry"] = faults.get("refused_step_then_retry", 0) + 1
+                now[0] = env.now()
+                apply_until(grid[step - 1] + timedelta(seconds=45))
+                compare("refused{}".format(step - k0))
+                if violations:
+                    break
+                probe("refused_step_then_retry")
             obs, reward, done, info = env.step(np.array([0.0]))
             now[0] = env.now()
             apply_until(grid[step])
